@@ -66,6 +66,24 @@ def compare(run, otp, key, alg, digits, period, token, t, window, skew, last, la
         w["time_argument"] = repr(time_arg)
     try:
         got, m = real(otp, token, targ, window, skew, last)
+        if (t + window + (last or 0)) % 5 == 0:
+            # the class-level entry point TOTP.verify(token, source, ...) decides exactly like match() on the loaded object
+            import passlib.exc as X
+            from passlib.totp import TOTP
+            src = [otp, otp.to_json(), otp.to_dict(), otp.to_uri(label="x")][(t + window) % 4]
+            try:
+                m2 = TOTP.verify(token, src, time=targ, window=window, skew=skew, last_counter=last)
+                got2 = ("accept", m2.counter)
+            except X.UsedTokenError:
+                got2 = ("used",)
+            except X.MalformedTokenError:
+                got2 = ("malformed",)
+            except X.InvalidTokenError:
+                got2 = ("invalid",)
+            run.count("class_level_verify")
+            if got2 != got:
+                run.violation(f"C14|verify-entry-point|match-{got[0]}|verify-{got2[0]}", f"TOTP.verify(token, <{type(src).__name__} source>, ...) gives {got2} where match() on the same object gives {got}",
+                              dict(w, source_kind=type(src).__name__), rp)
     except Exception as e:
         run.violation(f"C14|match|raises|{type(e).__name__}", f"match() raised {type(e).__name__}: {str(e)[:100]}; the model says {want}", w, rp)
         return None
@@ -136,6 +154,11 @@ def randoms(run, part):
     import warnings
     warnings.simplefilter("ignore")
     rng = run.rng(f"rand{part}")
+    import os
+    import time as _time
+    if os.environ.get("TZ") and hasattr(_time, "tzset"):
+        _time.tzset()
+        run.count("random_shards_with_process_timezone")
     n = 1500 if run.tier == "quick" else 40000
     for i in range(n):
         alg = rng.choice(["sha1", "sha256", "sha512"])
@@ -273,6 +296,11 @@ def body(run):
     for f, a in shards:
         by.setdefault(f, []).append(a)
     for f, al in by.items():
+        if f == "randoms":
+            # attempt times given as date-times: the process time zone must not matter (POSIX TZ strings, no tzdata needed)
+            for tz, sub in (("EST5EDT,M3.2.0,M11.1.0", al[0::2]), ("IST-5:30", al[1::2])):
+                run.parallel("checks.c14", f, sub, timeout=1200 if run.tier == "quick" else 7000, env={"TZ": tz})
+            continue
         run.parallel("checks.c14", f, al, timeout=1200 if run.tier == "quick" else 7000)
     run.exhaustive = True
     run.extra["exhaustive_scope"] = ("period 1..6 x the listed windows x skews x last-counter offsets {none, current-2..current+2} x the listed times x codes of every counter "
@@ -281,6 +309,7 @@ def body(run):
     run.require("random_matches", 5000)
     run.require("history_steps", 20000)
     run.require("colliding_cases", 5)
+    run.require("class_level_verify", 10000)
     for o in ("accept", "used", "invalid", "malformed"):
         run.require(f"outcome:{o}", 500)
     run.assumptions += ["the model restates the window rule of the property statement with its own RFC 4226 HOTP (validated on the RFC vectors in C13)"]
